@@ -194,6 +194,83 @@ def suite_by_name(name):
     return next(s for s in SUITES if s.name == name)
 
 
+def entry_points(r, n_inputs):
+    """the two command-line routes to the quantification columns - picked_group_fdr --do_quant and the standalone quantification
+    entry point fed with the table the first one wrote - agree on every column (except 'Best peptide', which the table read-back
+    does not carry), and both derive the identified-precursor PEP cutoff from --psm_fdr_cutoff (every call of the cutoff function
+    is recorded with the level it was asked for)"""
+    import csv
+    import tempfile
+    from picked_group_fdr import picked_group_fdr as pgf, quantification, fdr
+    from .quant_common import make_quant_inputs
+
+    def run_entry(fn, argv):
+        levels = []
+        real = fdr.calc_post_err_prob_cutoff
+
+        def cut(peps, q):
+            levels.append(float(q))
+            return real(peps, q)
+        fdr.calc_post_err_prob_cutoff = cut
+        try:
+            try:
+                fn(argv)
+                err = None
+            except BaseException as e:  # noqa: SystemExit included
+                err = f"{type(e).__name__}: {e}"[:200]
+        finally:
+            fdr.calc_post_err_prob_cutoff = real
+        return levels, err
+
+    def table(path):
+        rows = list(csv.reader(open(path), delimiter="\t"))
+        return rows[0], rows[1:]
+    n = 0
+    for k in range(n_inputs):
+        d = tempfile.mkdtemp(prefix="c12e_", dir=core.scratch())
+        inp = make_quant_inputs(d, r.rng, n_exp=r.rng.choice([1, 2, 3]))
+        T, P = r.rng.choice([0.01, 0.3, 1.0]), r.rng.choice([0.01, 0.05, 0.3])
+        base = ["--mq_evidence", inp["evidence"], "--fasta", inp["fasta"], "--protein_group_fdr_threshold", str(T), "--psm_fdr_cutoff", str(P)]
+        pg0, pga, pgb = (os.path.join(d, x) for x in ("pg0.txt", "pgA.txt", "pgB.txt"))
+        runs = [("picked_group_fdr", pgf.main, base + ["--methods", "picked_protein_group_mq_input", "--protein_groups_out", pg0]),
+                ("picked_group_fdr --do_quant", pgf.main, base + ["--methods", "picked_protein_group_mq_input", "--protein_groups_out", pga, "--do_quant"]),
+                ("quantification", quantification.main, base + ["--mq_protein_groups", pg0, "--protein_groups_out", pgb])]
+        data = {"suite": "entry_points", "rows": inp["rows"], "fasta": open(inp["fasta"]).read(), "protein_group_fdr_threshold": T, "psm_fdr_cutoff": P}
+        for name, fn, argv in runs:
+            n += 1
+            levels, err = run_entry(fn, argv)
+            if err:
+                if name == "picked_group_fdr":
+                    break       # no ranking for this input: nothing to quantify
+                r.violation("property-failure", dict(data, entry=name, error=err), True, f"entry_points: {name} raised {err}")
+                return n
+            wrong = sorted({q for q in levels if q != P})
+            if wrong:
+                r.violation("property-failure", dict(data, entry=name, levels_asked=wrong), True,
+                            f"entry_points: {name} derived a PEP cutoff from level {wrong} although --psm_fdr_cutoff is {P} "
+                            f"(--protein_group_fdr_threshold {T})")
+                return n
+        else:
+            (ha, ra), (hb, rb) = table(pga), table(pgb)
+            da, db = {x[0]: dict(zip(ha, x)) for x in ra}, {x[0]: dict(zip(hb, x)) for x in rb}
+            diff = None
+            if ha != hb:
+                diff = f"headers differ: {[h for h in ha if h not in hb][:4]} / {[h for h in hb if h not in ha][:4]}"
+            elif set(da) != set(db):
+                diff = f"rows differ: {sorted(set(da) ^ set(db))[:3]}"
+            else:
+                for pid in da:
+                    cols = [(h, da[pid][h], db[pid][h]) for h in ha if h != "Best peptide" and da[pid][h] != db[pid][h]]
+                    if cols:
+                        diff = f"row {pid}: {cols[:3]}"
+                        break
+            if diff:
+                r.violation("property-failure", dict(data, difference=diff), True,
+                            f"entry_points: picked_group_fdr --do_quant and the quantification entry point write different columns: {diff}")
+                return n
+    return n
+
+
 def run(r: core.Runner):
     r.assumptions += [
         "evidence rows enter the model as the tool's own parser yields them (parser: C10); intensities lie on a grid where float sums are exact",
@@ -202,3 +279,4 @@ def run(r: core.Runner):
     ]
     for s in SUITES:
         r.run_suite(s, max_report=2)
+    r.traces = (r.traces or 0) + entry_points(r, core.tier_n(r.tier, 4, 40))
